@@ -56,6 +56,7 @@ pub fn prop() -> Prop {
         independent: &[],
         ref_sample: |_| 0,
         required_probes: &["decoder_bin", "decoder_json", "mut_flip", "mut_insert", "mut_delete", "mut_truncate", "mut_splice", "mut_inflate", "mut_cross_suite", "mutated_still_decodes", "call_sign", "call_aggregate", "call_verify_signature_share", "call_key_package_try_from", "call_dkg_part2", "call_dkg_part3", "call_refresh_share", "call_refresh_dkg", "call_compute_refreshing_shares", "call_repair", "call_reconstruct", "call_batch", "call_rerandomized", "call_split", "call_misc"],
+        prepare: None,
     }
 }
 
